@@ -181,7 +181,7 @@ def bounds(ctx, crate, crs, bodies, e, tag):
             n += 1
             ctx.count("bound_comparisons")
             ctx.ob("bound-kinds" + tag, b.key, "cmp:%s" % _cmp_name(a, c), ok, "%s:%s" % (b.file, s["line"]), why)
-    ctx.floor("bound-kinds" + tag, "bound comparisons in Mapping", n, 5)
+    ctx.floor("bound-kinds" + tag, "bound comparisons in Mapping", n, 3)
 
 
 def _cmp_name(a, c):
